@@ -198,18 +198,40 @@ def py_eq(a, b):
     return a == b
 
 
+def query_text(c, inv):
+    """The query of a case as path text; `ptext` is the parameter text as it must be written in a path so that the
+    path parser hands `params` to the keyword (backslashes doubled, blanks / quotes escaped)."""
+    return "%s[%s%s(%s)]" % (c["path"], "!" if inv else "", KW[c["kw"]], c.get("ptext", c["params"]))
+
+
 def direct_judge(c, path, got):
     """The clauses of the property judged without the model, with Python `==` on the values themselves, for an
     Array-of-Hashes / hash-of-hashes at `ats[0]` and a parameter naming the attribute:
     unique = the members whose value occurs once (inverted: more than once), distinct = the first member of each group
     of equal values, max/min plain + inverted = a partition of ALL the members.  None = held or not judged."""
-    kw, inv, name = c["kw"], c["inv"], c["params"]
-    if kw not in ("UNIQUE", "DISTINCT", "MAX", "MIN") or not name.isalnum() or len(c["ats"]) != 1:
+    kw, inv = c["kw"], c["inv"]
+    # `key`: the key the parameter text designates when that text is a quoted / escaped spelling of it
+    name = c.get("key", c["params"])
+    if len(c["ats"]) != 1 or ("key" not in c and not name.isalnum()):
         return None
     at = c["ats"][0]
     coll = codec.json_to_plain(c["doc"])
     for kind, ref in at:
         coll = coll[ref]
+    if kw == "HAS_CHILD" and "key" in c:
+        # has_child returns exactly the hashes having (inverted: lacking) the named key
+        if isinstance(coll, dict):
+            want = [at] if (name in coll) != inv else []
+        elif isinstance(coll, list) and coll and all(isinstance(v, dict) for v in coll):
+            want = [at + [["i", i]] for i, v in enumerate(coll) if (name in v) != inv]
+        else:
+            return None
+        if got != want:
+            return ("direct:%shas_child-not-the-hashes-%s-the-key" % ("!" if inv else "", "lacking" if inv else "having"),
+                    "yielded %s; the hashes %s the key %r are %s" % (got, "lacking" if inv else "having", name, want))
+        return None
+    if kw not in ("UNIQUE", "DISTINCT", "MAX", "MIN"):
+        return None
     if isinstance(coll, dict):
         members = [(["k", k], v) for k, v in coll.items()]
         if name in coll and any(not isinstance(v, dict) for _, v in members):
@@ -240,7 +262,7 @@ def direct_judge(c, path, got):
     if not inv:
         return None
     # max/min: the plain and the inverted result partition the members
-    okp, plain = run_kw(c["doc"], "%s[%s(%s)]" % (c["path"], KW[kw], name), kw, False, name)
+    okp, plain = run_kw(c["doc"], query_text(c, False), kw, False, c["params"])
     if not okp or nodes_of(plain) is None or not (got or nodes_of(plain)):
         return None                          # both empty: the query is refused altogether
     plain = {"nodes": nodes_of(plain)}
@@ -273,7 +295,7 @@ def kw_chunk(cases):
         mos = [a["model"] for a in answers[k:k + len(c["ats"])]]
         k += len(c["ats"])
         case = dict(c, kind="kw")
-        path = "%s[%s%s(%s)]" % (c["path"], "!" if c["inv"] else "", KW[c["kw"]], c["params"])
+        path = query_text(c, c["inv"])
         case["query"] = path
         okp, im = run_kw(c["doc"], path, c["kw"], c["inv"], c["params"])
         stats["n"] += 1
@@ -456,6 +478,78 @@ def hash_cases(maxlen, rng, tier):
             for inv in (False, True):
                 cases.append({"fam": "hoh/param-names-own-key", "doc": doc, "path": "", "ats": [[]], "kw": kw, "inv": inv,
                               "params": "a", "members": 2})
+    return cases
+
+
+# keys a keyword parameter can only name in a quoted / escaped spelling: literal backslashes, commas, quotes, blanks
+ODD_KEYS = ["srv\\pub", "\\", "a\\", "\\a", "a\\\\b", "\\\\", "a\\,b", "a,b", ",", "a'b", 'a"b', "'a'", "it's", "a b", " a", "a ", " "]
+
+
+def decoys_of(key):
+    """Keys a wrong reading of the parameter text would look for instead: the key without its backslashes, with each
+    doubled, without quotes / commas / blanks, cut at the first comma."""
+    ds = [key.replace("\\", ""), key.replace("\\", "\\\\"), key.replace("\\", "", 1), key.strip(), key.replace(" ", ""),
+          key.replace("'", "").replace('"', ""), key.split(",")[0], key.replace(",", ""), "'%s'" % key, key + "\\"]
+    out = []
+    for d in ds:
+        if d and d != key and d not in out and not d.startswith("&"):
+            out.append(d)
+    return out
+
+
+def param_spellings(key):
+    """Parameter texts (what the keyword receives from the path parser) that designate `key` as ONE parameter:
+    every significant character escaped; the key between single / double quotes (backslashes and quotes escaped)."""
+    esc = "".join(("\\" + ch) if ch in "\\,'\" " else ch for ch in key)
+    inq = "".join(("\\" + ch) if ch in "\\'\"" else ch for ch in key)
+    out = [esc, "'%s'" % inq, '"%s"' % inq]
+    if "'" not in key and '"' not in key and "\\" not in key:
+        out.append("'%s'" % key)
+    return list(dict.fromkeys(out))
+
+
+def path_spellings(params):
+    """Path texts from which the path parser yields the parameter text `params`: backslashes doubled and every blank /
+    quote / bracket escaped; or backslashes doubled and blanks escaped only (quotes left to the path parser, which
+    keeps balanced ones).  run_kw checks that the parser really hands over `params` (else: path-not-expressible)."""
+    full = "".join(("\\" + ch) if ch in "\\ '\"()[]" else ch for ch in params)
+    light = "".join(("\\" + ch) if ch in "\\ " else ch for ch in params)
+    return list(dict.fromkeys([full, light]))
+
+
+def oddkey_cases(rng, tier):
+    """Arrays-of-Hashes and hashes (of hashes) whose attribute / child key holds literal backslashes, commas, quotes or
+    blanks, next to members holding a look-alike key instead (or both, with the values swapped): each keyword taking a
+    key name x inversion x every spelling of the key as a parameter x both ways of writing that in a path.  Judged by
+    the model and directly (`direct_judge`: has_child = the hashes having the key, unique/distinct, max/min partition)."""
+    cases = []
+    for key in ODD_KEYS:
+        decoys = decoys_of(key)
+        for dk in decoys[: (2 if tier == "quick" else 10)]:
+            states = [{"k": "map", "e": [[key, sj(2)]]}, {"k": "map", "e": [[dk, sj(10)]]},
+                      {"k": "map", "e": [[key, sj(10)], [dk, sj(2)]]}, {"k": "map", "e": [["other", sj(0)]]}]
+            combos = [t for n in (1, 2) for t in itertools.product(range(4), repeat=n)]
+            threes = list(itertools.product(range(4), repeat=3))
+            combos += rng.sample(threes, 6 if tier == "quick" else 40)
+            for idxs in combos:
+                n = len(idxs)
+                shapes = [("aoh", {"k": "seq", "i": [states[i] for i in idxs]})]
+                if n <= 2:
+                    shapes.append(("hoh", {"k": "map", "e": [["k%d" % j, states[i]] for j, i in enumerate(idxs)]}))
+                if n == 1:
+                    shapes.append(("hash", states[idxs[0]]))
+                for shape, coll in shapes:
+                    doc, path, ats, members = wrap(coll, n)[0]
+                    kws = ("HAS_CHILD",) if shape == "hash" else ("HAS_CHILD", "MAX", "MIN", "UNIQUE", "DISTINCT")
+                    for kw in kws:
+                        for params in param_spellings(key):
+                            ptexts = path_spellings(params)
+                            ptext = ptexts[rng.randrange(len(ptexts))] if (n == 3 or kw not in ("HAS_CHILD", "MAX")) else None
+                            for pt in ([ptext] if ptext is not None else ptexts):
+                                for inv in (False, True):
+                                    cases.append({"fam": "oddkey/%s/%s" % (shape, KW[kw]), "doc": doc, "path": path, "ats": ats,
+                                                  "kw": kw, "inv": inv, "params": params, "ptext": pt, "key": key,
+                                                  "members": n if shape != "hash" else 2, "direct": True})
     return cases
 
 
@@ -790,6 +884,9 @@ def run(chk: core.Check):
     cases += deep_parent_cases(rng, 60 if tier == "quick" else 600)
     cases += slice_parent_cases(random.Random(chk.seed * 17 + 1), 60 if tier == "quick" else 600)
     cases += random_cases(rng, 3000 if tier == "quick" else 100000)
+    odd = oddkey_cases(random.Random(chk.seed * 31 + 7), tier)
+    chk.extra_cov["oddkey_cases"] = len(odd)
+    cases += odd
     chk.extra_cov["cases_generated"] = len(cases)
     rng.shuffle(cases)
     for r in core.pmap(kw_chunk, core.chunked(cases, 64)):
